@@ -18,6 +18,7 @@ RULE = ('scenario = seeded program layout: up to four programs (main, two inheri
         'Oracle: the file, line and trace given to master::error_handler must be those of a statement that can be executing between the '
         'last marker seen and the next one, per the generator\'s abstract interpreter; each outer trace frame must sit on its call statement. '
         'non-trivial = the fault fired; distinct = distinct (scenario, file kind, frame-chain shape).')
+RULE += (' Later additions: failing initialisers of global variables; headers with include guards that include each other or themselves, with failing statements behind the #include.')
 COMPONENTS = {'real': ['lib/lpc/lex.c', 'lib/lpc/grammar.y', 'lib/lpc/compiler.c (line number table, save_file_info, switch_to_line)', 'lib/lpc/program.c find_line',
                        'src/error_context.c', 'src/simulate.c get_svalue_trace', 'src/interpret.c', 'src/apply.c', 'src/backend.c + comm.c (the command arrives over the simulated socket)'],
               'stub': ['kernel sockets/clock/timer (simulated)', 'file layer pass-through'],
